@@ -23,14 +23,13 @@ theorem fromSparse_spec (zero : β) (data : List (List β)) (cols : List (List I
 /-- independence of the order of the requested channels: the value found for a channel does not
 depend on where (or next to which other channels) it is requested -/
 theorem fromSparse_order_independent (zero : β) (data : List (List β)) (cols : List (List Int))
-    (chans chans' : List Nat) (hc : chans.Nodup) (hc' : chans'.Nodup) (hlen : data.length = cols.length)
-    (hrow : ∀ p ∈ data.zip cols, p.1.length = p.2.length) (hcols : ColsOK cols)
+    (chans chans' : List Nat)
     (out out' : List (List β)) (ho : fromSparse zero data cols chans = some out)
     (ho' : fromSparse zero data cols chans' = some out') (i j j' : Nat) (hj : j < chans.length)
-    (hj' : j' < chans'.length) (heq : chans[j]'hj = chans'[j']'hj') (hi : i < data.length) :
+    (hj' : j' < chans'.length) (heq : chans[j]'hj = chans'[j']'hj') :
     (out.getD i []).getD j zero = (out'.getD i []).getD j' zero :=
-  Lemmas.fromSparse_order_independent zero data cols chans chans' hc hc' hlen hrow hcols out out' ho ho'
-    i j j' hj hj' heq hi
+  Lemmas.fromSparse_order_independent zero data cols chans chans' out out' ho ho'
+    i j j' hj hj' heq
 
 /-- `get_features` / `get_template_features`: for every request of distinct spikes in ANY order
 and every list of distinct channels, with or without a row (spike id) table, the row returned at
